@@ -439,6 +439,68 @@ for (_m, _K) in [(2, 2), (2, 3), (3, 3)]:
         _ell_dom(_m, _K, _sk)
 
 
+@task("C09", "Ell.history[is_dominated, m=2, K=2, slack=zero: construct, use, update, use]")
+def _ell_dom_history(t):
+    """Both ellipsoids built by the real constructor, the predicate used once, the first region updated by the real `update`,
+    the predicate used again: every program of the second use ranges over the ellipsoids NOW displayed, and the second result
+    is "OPT_k >= 0 for every facet" for those ellipsoids."""
+    from pyvc.values import SObj
+    from pyvc.harness import cls_ref
+    from pyvc.symexec import find_obj
+    m, K = 2, 2
+    t.mode = "unrolled m=2 K=2, call sequence on one region object"
+    order = t.inp("order", InOrder("o", K, m))
+    O = t.inputs["order"]
+    c1, S1, a1 = t.inp("c1", InArr("c1", (m,))), t.inp("S1", InArr("S1", (m, m))), t.inp("a1", InReal("a1"))
+    c2, S2, a2 = t.inp("c2", InArr("c2", (m,))), t.inp("S2", InArr("S2", (m, m))), t.inp("a2", InReal("a2"))
+    mean, cov, sc = t.inp("mean", InArr("mu", (m,))), t.inp("cov", InArr("cov", (m, m))), t.inp("scale", InArr("sc", ()))
+    e1, e2 = SObj(cls_ref(CR, "EllipsoidalConfidenceRegion")), SObj(cls_ref(CR, "EllipsoidalConfidenceRegion"))
+    made = [p for p in t.run(CR, "EllipsoidalConfidenceRegion.__init__", [m, c1, S1, a1], self_val=e1) if p.kind == "return"]
+    if len(made) == 1:
+        made = [p for p in t.run(CR, "EllipsoidalConfidenceRegion.__init__", [m, c2, S2, a2], self_val=e2, after=made[0]) if p.kind == "return"]
+    if len(made) != 1:
+        t.prove("constructors_return_on_one_path", False)
+        return
+    first = [p for p in t.run(CR, "EllipsoidalConfidenceRegion.is_dominated", [None, order, e1, e2, 0], after=made[0]) if p.kind == "return"]
+    n0 = len(t.ctx.cvx)
+    second = []
+    for p in first[:2]:
+        for q in t.run(CR, "EllipsoidalConfidenceRegion.update", [mean, cov, sc], self_val=e1, after=p):
+            if q.kind == "return":
+                second += t.run(CR, "EllipsoidalConfidenceRegion.is_dominated", [None, order, e1, e2, 0], after=q)
+    t.prove("history_reaches_the_second_use", z3.BoolVal(len(second) > 0))
+    t.must_fail()
+    t.no_raise(second)
+    W = S.rows_of(O)
+    OPT = [z3.Real("OPT_now_facet_%d" % k) for k in range(K)]
+    done = set()
+
+    def goal(p):
+        if p.kind != "return":
+            return False
+        cur, oth = find_obj(p.st, e1.oid), find_obj(p.st, e2.oid)
+        from pyvc import libmodel as L
+        cc1 = [V.R(x) for x in L.as_arr(cur.fields["center"]).flat()]
+        cc2 = [V.R(x) for x in L.as_arr(oth.fields["center"]).flat()]
+        link = [OPT[k] <= S.dot(W[k], S.vsub(cc2, cc1)) for k in range(K)]
+        for rec in cvx_for_path(t, p):
+            i = [k for k, r_ in enumerate(t.ctx.cvx) if r_ is rec][0]
+            if i < n0:
+                continue
+            vs = rec["vars"][-2 * m:]
+            zv, zpv = vs[:m], vs[m:2 * m]
+            if i not in done:
+                done.add(i)
+                spec = z3.And(ell_member_now(cur.fields["center"], cur.fields["sigma"], cur.fields["alpha"], zv, m),
+                              ell_member_now(oth.fields["center"], oth.fields["sigma"], oth.fields["alpha"], zpv, m))
+                t.prove("feasible_set_of_the_second_use_is_the_pair_of_ellipsoids_now_displayed#%d" % len(done), rec["constraints"] == spec,
+                        assumptions=rec["pc"][len(t.pre):])
+            for k in range(K):
+                link.append(z3.Implies(_same_linear(rec["objective"], S.dot(W[k], S.vsub(zpv, zv)), list(zv) + list(zpv)), rec["optval"] == OPT[k]))
+        return z3.Implies(z3.And(*link), V.Bz(p.value) == z3.And(*[OPT[k] >= 0 for k in range(K)]))
+    t.prove_paths("second_result_is_forall_facets_min_ge_zero_for_the_ellipsoids_now_displayed", second, goal)
+
+
 @task("C09", "Ell.is_dominated.raises[m=2,K=3,slack_size=2]")
 def _ell_dom_badslack(t):
     m, K = 2, 3
